@@ -85,6 +85,26 @@ async fn ares(w: &mut ZW, which: String) -> Result<(), String> {
     if which == "ok" { Ok(()) } else { Err("zoo-async-err".into()) }
 }
 
+pub type StepResult = Result<(), String>;
+
+#[then(regex = r"^alias result (ok|err)$")]
+fn alias_res(w: &mut ZW, which: String) -> StepResult {
+    rec(w, format!("alias_res({which:?})"));
+    if which == "ok" { Ok(()) } else { Err("zoo-alias-err".into()) }
+}
+
+#[given(regex = r"^io result (ok|err)$")]
+async fn io_res(w: &mut ZW, which: String) -> std::io::Result<()> {
+    rec(w, format!("io_res({which:?})"));
+    if which == "ok" { Ok(()) } else { Err(std::io::Error::other("zoo-io-err")) }
+}
+
+#[when(regex = r"^boxed result (ok|err)$")]
+fn boxed_res(w: &mut ZW, which: String) -> Result<(), Box<dyn std::error::Error>> {
+    rec(w, format!("boxed_res({which:?})"));
+    if which == "ok" { Ok(()) } else { Err("zoo-boxed-err".into()) }
+}
+
 #[given(regex = r"^optional(?: (\w+))? end$")]
 fn optional(w: &mut ZW, word: String) {
     rec(w, format!("optional({word:?})"));
@@ -240,6 +260,9 @@ pub fn entries() -> Vec<Entry> {
         // a returned Err must make the step fail: the function runs (log line) and then the step panics
         Entry { func: "res", kw: Then, re: r"^result (ok|err)$", expect: |c, _| (g(c, 1) == "ok").then(|| "res(\"ok\")".into()), templates: &["result ok", "result err"] },
         Entry { func: "ares", kw: When, re: r"^async result (ok|err)$", expect: |c, _| (g(c, 1) == "ok").then(|| "ares(\"ok\")".into()), templates: &["async result ok", "async result err"] },
+        Entry { func: "alias_res", kw: Then, re: r"^alias result (ok|err)$", expect: |c, _| (g(c, 1) == "ok").then(|| "alias_res(\"ok\")".into()), templates: &["alias result ok", "alias result err"] },
+        Entry { func: "io_res", kw: Given, re: r"^io result (ok|err)$", expect: |c, _| (g(c, 1) == "ok").then(|| "io_res(\"ok\")".into()), templates: &["io result ok", "io result err"] },
+        Entry { func: "boxed_res", kw: When, re: r"^boxed result (ok|err)$", expect: |c, _| (g(c, 1) == "ok").then(|| "boxed_res(\"ok\")".into()), templates: &["boxed result ok", "boxed result err"] },
         Entry { func: "optional", kw: Given, re: r"^optional(?: (\w+))? end$", expect: |c, _| Some(format!("optional({:?})", g(c, 1))), templates: &["optional end", "optional {w} end"] },
         Entry { func: "small", kw: When, re: r"^small (\S+)$", expect: |c, _| g(c, 1).parse::<u8>().ok().map(|n| format!("small({n})")), templates: &["small {n}", "small {w}", "small 300"] },
         Entry { func: "two", kw: Then, re: r"^two (\d+) then (\w+) last$", expect: |c, _| g(c, 1).parse::<u16>().ok().map(|a| format!("two({a},{:?})", g(c, 2))), templates: &["two {n} then {w} last"] },
